@@ -119,6 +119,20 @@ def rule_r1_add(ck, prog, f):
                                                       ': Add may report success without a published slot (head CAS success edge does not dominate it)'))
         else:
             ck.inconclusive('C11.R1', f, 'return-value', rp.n, 'return value is not a boolean constant')
+    # the tail snapshot is taken before the head snapshot: head - tail can then only over-estimate the fill level;
+    # with the loads swapped a consumer running in between makes tail newer than head and the unsigned difference wraps
+    loads = {}
+    for p in g.points:
+        if p.n is not None and atomic_op(p.n) and atomic_op(p.n)[0] == 'load':
+            ap = path_str(access_path(f, p.n['obj'], p.ctx))
+            if ap in ('this.head_', 'this.tail_'):
+                loads.setdefault(ap, []).append(p)
+    if loads.get('this.head_') and loads.get('this.tail_'):
+        ok = all(g.must_pass(h, loads['this.tail_'], src=None) and not any(t.id in g.reachable_from([q for (q, _l) in h.succ], avoid=swaps) for t in loads['this.tail_'])
+                 for h in loads['this.head_'])
+        ck.verdict(ok, 'C11.R1', f, 'tail-snapshot-before-head', loads['this.head_'][0].n,
+                   'tail_ is read before head_ in every attempt' if ok else
+                   'head_ is read before tail_: a consumer (and another producer) running between the two reads makes the tail snapshot newer than the head snapshot, head - tail wraps and Add reports "full" although there is room')
     for sp in swaps:
         st = IN.get(sp.id, frozenset())
         ok = st == frozenset({'C'})
@@ -257,7 +271,7 @@ def rule_r2(ck, prog, suffix, g_add, rd_add, full_rel, f_add):
             ck.verdict(ok, 'C11.R2', f, 'size', rp.n, 'size() = %s' % fmt(lin) + ('' if ok else ' (expected HEAD-TAIL)'))
 
 
-def rule_r3(ck, prog, suffix):
+def rule_r3(ck, prog, suffix, only_spin=False):
     table = [
         ('AtomicUniquePtr::SwapIfNull', 'compare_exchange', 0, AT_LEAST_RELEASE, 'slot CAS success order >= release'),
         (suffix + '::Add#lvalue', 'compare_exchange', 0, AT_LEAST_RELEASE, 'head CAS success order >= release'),
@@ -267,6 +281,8 @@ def rule_r3(ck, prog, suffix):
         ('SpinLockMutex::try_lock', 'exchange', 0, AT_LEAST_ACQUIRE, 'try_lock exchange >= acquire'),
         ('SpinLockMutex::unlock', 'store', 0, AT_LEAST_RELEASE, 'unlock store >= release'),
     ]
+    if only_spin:
+        table = [t for t in table if t[0].startswith('SpinLockMutex')]
     for (fn, opname, argpos, allowed, text) in table:
         lv = fn.endswith('#lvalue')
         fs = prog.functions(fn.replace('#lvalue', ''))
@@ -287,6 +303,8 @@ def rule_r3(ck, prog, suffix):
                                '%s: %s' % (text, ORD.get(v, v)) + ('' if ok else ' -- weaker than the minimum the C++ memory model needs here (x86 tests cannot see it)'))
             if not found:
                 ck.violation('C11.R3', f, 'order:%s' % opname, None, 'expected atomic %s not found in %s' % (opname, short(f)))
+    if only_spin:
+        return
     # consumer-side loads of head_ (PeekImpl, size, empty): >= acquire
     for name in ('PeekImpl', 'size'):
         for f in prog.functions(suffix + '::' + name):
